@@ -3,7 +3,7 @@
 From Coq Require Import Lia ZArith List Bool.
 From Schwifty Require Import Lib.Base Lib.Lit Model.Clean Model.Data Model.Iban Model.Bban Model.Generate
   Model.Registry Model.Lookup.
-From Schwifty Require Import Spec.Iso13616 Proofs.CleanFacts Proofs.PlaceFacts Proofs.RebuildFacts Proofs.ComputeShape Proofs.GenerateFacts.
+From Schwifty Require Import Spec.Iso13616 Proofs.CleanFacts Proofs.PlaceFacts Proofs.RebuildFacts Proofs.ComputeShape Proofs.GenerateFacts Proofs.RandomGen.
 From Schwifty Require Import Gen.Env Gen.IbanData Gen.IbanCfg Gen.ChecksumCfg Gen.Banks.
 From Coq Require Import String.
 Open Scope list_scope.
@@ -30,6 +30,16 @@ Theorem C09_generated_valid : forall national cc r cls acc w bank account branch
   validate_national the_table the_algos (bank_code_entries the_banks) cc (iban_bban the_env s) = Ok true.
 Proof. exact gen_national_valid. Qed.
 
+(* ... and so does every BBAN drawn at random (clean pins, clean draws; country with positions) *)
+Theorem C09_random_valid : forall cc0 reg pins ci bi draws cc b r ps cls acc w,
+  random_bban' cc0 reg pins ci bi draws = Ok (cc, b) ->
+  find_row the_table cc = Some r -> r_positions r = Some ps -> text_eqb cc (tx "DE") = false ->
+  assoc (cc ++ [58%N] ++ k_default) registered = Some (cls, acc) -> class_width cls = Some w ->
+  (forall k v, In (k, v) pins -> cleaned the_env v = true) ->
+  (forall d, In d draws -> cleaned the_env (upper the_env d) = true) ->
+  validate_national the_table the_algos (bank_code_entries the_banks) cc b = Ok true.
+Proof. exact gen_random_national_valid. Qed.
+
 (* conversely: the components read off a structurally conforming, nationally valid BBAN, handed back to
    BBAN.from_components, give a BBAN of the same length that agrees with it at every component's position
    (positions belonging to no component are not constrained) *)
@@ -43,6 +53,7 @@ Proof. exact gen_rebuild. Qed.
 
 Print Assumptions C09_generated_valid.
 Print Assumptions C09_rebuild.
+Print Assumptions C09_random_valid.
 
 Example C09_ex :
   generate (fun _ _ => Ok true) (tx "BE") (tx "539") (tx "0075470") [] = Ok (tx "BE68539007547034")
